@@ -496,6 +496,16 @@ func (rs *rootSet) walk(v ssa.Value, depth int) {
 						rs.walk(st.Val, depth+1)
 						n++
 					}
+					// a record literal filled in field by field (`T{a: x, b: y}` is a local whose
+					// fields are stored one by one): the record derives from what its fields hold
+					if fa, ok := ref.(*ssa.FieldAddr); ok && fa.X == ssa.Value(a) {
+						for _, r2 := range *fa.Referrers() {
+							if st, ok := r2.(*ssa.Store); ok && st.Addr == ssa.Value(fa) {
+								rs.walk(st.Val, depth+1)
+								n++
+							}
+						}
+					}
 				}
 				if n == 0 {
 					rs.add(a)
